@@ -205,7 +205,8 @@ void run_incremental(vh::Case& c, const std::string& optname) {
     if (got != before) { c.violation("incremental.values_after_monotonisation", sig + diff_class(got, before), "after make_filtration_non_decreasing:" + diff(got, before)); return; }
   }
   // (d) same complex as the one-shot route on the same option set (labels 0..n-1 only)
-  if (g.label.back() == g.n() - 1 && max_dim >= 0) {
+  bool contiguous_labels = true; for (int i = 0; i < g.n(); ++i) if (g.label[i] != i) contiguous_labels = false;
+  if (contiguous_labels && max_dim >= 0) {
     ST one; insert_graph(one, g); one.expansion(max_dim);
     c.count("cmp.routes_agree");
     if (dump(one) != dump(st)) { c.violation("routes.one_shot_vs_incremental", sig + cls(dump(one), dump(st), g, max_dim), "one-shot expansion and incremental insertion differ:" + diff(dump(one), dump(st))); return; }
